@@ -153,6 +153,11 @@ class FlowWorld(World):
 
     def quiescent_state(self):
         self.snap_final = self.snap()
+        # frozen here: the teardown unwinds the threads with ThreadKilled, which service()'s
+        # "except BaseException" (72e39ad) turns into an error response written while dying
+        self.accepted_final = list(self.accepted)
+        self.inflight_final = self.inflight
+        self.wire_final = bytes(self.wire)
         return World.quiescent_state(self)
 
     def names(self):
@@ -763,7 +768,7 @@ EXPECTED_SHAPE = {'HTTPChannel._flush_exception': ['(self,flush,do_close=True)',
                          '}',
                          'except(ClientDisconnected){',
                          '}',
-                         'except(Exception){',
+                         'except(BaseException){',
                          'if(not task.wrote_header){',
                          'if(self.adj.expose_tracebacks){',
                          '}',
@@ -1046,11 +1051,13 @@ def monitors(world, verdict):
                 out.append(("accepted-after-close", None, "write_soon accepted %d bytes although the connection was closed" % detail))
                 break
     # (d) order / integrity of the wire
-    acc = b"".join(world.accepted)
-    if not (acc + world.inflight).startswith(bytes(world.wire)):
+    acc = b"".join(getattr(world, "accepted_final", world.accepted))
+    inflight = getattr(world, "inflight_final", world.inflight)
+    wire = getattr(world, "wire_final", bytes(world.wire))
+    if not (acc + inflight).startswith(wire):
         out.append(("wire-not-prefix", None, "the bytes on the wire are not a prefix of the accepted output"))
-    elif fin["c"] and fin["t"] == 0 and fin["p"] == 0 and fin["ol"] == "-" and not world.inflight and bytes(world.wire) != acc:
-        out.append(("wire-incomplete", None, "total_outbufs_len is 0 but %d accepted bytes never reached the wire" % (len(acc) - len(world.wire))))
+    elif fin["c"] and fin["t"] == 0 and fin["p"] == 0 and fin["ol"] == "-" and not inflight and wire != acc:
+        out.append(("wire-incomplete", None, "total_outbufs_len is 0 but %d accepted bytes never reached the wire" % (len(acc) - len(wire))))
     return out
 
 
